@@ -8,6 +8,531 @@ Every graph `graph_from_tucan` returns comes from a listener state of the shape 
 chemistry-level atoms in the round trip's domain (`MolAtoms`): element symbol and atomic number from the
 table, invariant code `(Z, mass or 0, rad or 0)`, mass / radical either absent or strictly positive.
 -/
+namespace Tucan.POut
+open Tucan RejectKind
+
+/-! ## integers read from `greater_than_zero` tokens -/
+
+theorem bind_ok {α β} {x : PyM α} {f : α → PyM β} {b : β} (h : x >>= f = .ok b) :
+    ∃ a, x = .ok a ∧ f a = .ok b := by
+  cases x with
+  | error e => cases h
+  | ok a => exact ⟨a, rfl, h⟩
+
+theorem digitsGo_digits : ∀ (s : Str) (st : Nat) (ds : List Char), digitsGo st s = some ds →
+    ∀ c ∈ ds, isDigit c = true := by
+  intro s
+  induction s with
+  | nil =>
+    intro st ds h
+    simp only [digitsGo] at h
+    split at h
+    · cases h; intro c hc; cases hc
+    · cases h
+  | cons c r ih =>
+    intro st ds h
+    simp only [digitsGo] at h
+    split at h
+    · next hd =>
+      cases hr : digitsGo 1 r with
+      | none => simp [hr] at h
+      | some ds' =>
+        simp only [hr, Option.map_some, Option.some.injEq] at h
+        subst h
+        intro x hx
+        rcases List.mem_cons.1 hx with rfl | hx
+        · exact hd
+        · exact ih _ _ hr x hx
+    · split at h
+      · exact ih _ _ h
+      · cases h
+
+theorem digitVal_le {c : Char} (h : isDigit c = true) : digitVal c ≤ 9 := by
+  simp only [isDigit, Bool.and_eq_true, decide_eq_true_eq] at h
+  have h9 : c.toNat ≤ 57 := h.2
+  show c.toNat - 48 ≤ 9
+  omega
+
+theorem foldl_digits_lt : ∀ (ds : List Char), (∀ c ∈ ds, isDigit c = true) → ∀ acc : Nat,
+    ds.foldl (fun acc c => acc * 10 + digitVal c) acc < (acc + 1) * 10 ^ ds.length := by
+  intro ds
+  induction ds with
+  | nil => intro _ acc; simp
+  | cons d ds ih =>
+    intro hd acc
+    simp only [List.foldl_cons, List.length_cons]
+    have h1 := ih (fun c hc => hd c (List.mem_cons_of_mem _ hc)) (acc * 10 + digitVal d)
+    have h2 := digitVal_le (hd d List.mem_cons_self)
+    have h3 : (acc * 10 + digitVal d + 1) * 10 ^ ds.length ≤ ((acc + 1) * 10) * 10 ^ ds.length :=
+      Nat.mul_le_mul_right _ (by omega)
+    rw [Nat.pow_succ, Nat.mul_comm (10 ^ ds.length) 10, ← Nat.mul_assoc]
+    exact Nat.lt_of_lt_of_le h1 h3
+
+theorem natRepr_len_of_digits (ds : List Char) (hd : ∀ c ∈ ds, isDigit c = true)
+    (hl : ds.length ≤ intMaxStrDigits) : (natRepr (natOfDigits ds)).length ≤ intMaxStrDigits := by
+  rw [LineM.natRepr_eq]
+  rw [Nat.length_toDigits_le_iff (by decide) (by decide)]
+  have h1 := foldl_digits_lt ds hd 0
+  simp only [Nat.zero_add, Nat.one_mul] at h1
+  exact Nat.lt_of_lt_of_le h1 (Nat.pow_le_pow_right (by decide) hl)
+
+/-- a text that starts with `1`..`9`: its value is `≥ 1` and prints with at most 4300 digits -/
+def PosVal (i : Int) : Prop := 1 ≤ i ∧ (intRepr i).length ≤ intMaxStrDigits
+
+theorem pyInt_posVal {t : Str} (ht : PosText t) {i : Int} (h : pyInt t = .ok i) : PosVal i := by
+  refine ⟨pyInt_pos ht h, ?_⟩
+  obtain ⟨c, r, rfl, h1, h9⟩ := ht
+  obtain ⟨hsp, hm, hp, hd, hv⟩ := char_facts h1 h9
+  have hstrip : strip (c :: r) = c :: dropWhileEnd isPySpace r := by
+    simp [strip, List.dropWhile, hsp, dropWhileEnd_cons hsp]
+  have hmatch : pyInt.match_1 (fun _ => Bool × List Char) (c :: dropWhileEnd isPySpace r)
+      (fun r => (true, r)) (fun r => (false, r)) (fun r => (false, r))
+      = (false, c :: dropWhileEnd isPySpace r) := by
+    split
+    · next heq => injection heq with h2 _; exact absurd h2 hm
+    · next heq => injection heq with h2 _; exact absurd h2 hp
+    · rfl
+  unfold pyInt at h
+  simp only [hstrip, hmatch, digitsWithUnderscores, digitsGo, hd, if_true] at h
+  cases hg : digitsGo 1 (dropWhileEnd isPySpace r) with
+  | none => simp [hg] at h
+  | some ds =>
+    simp only [hg, Option.map_some] at h
+    split at h
+    · cases h
+    · next hlen =>
+      injection h with h
+      subst h
+      simp only [Bool.false_eq_true, if_false]
+      show (natRepr (natOfDigits (c :: ds))).length ≤ intMaxStrDigits
+      refine natRepr_len_of_digits _ ?_ (by omega)
+      intro x hx
+      rcases List.mem_cons.1 hx with rfl | hx
+      · exact hd
+      · exact digitsGo_digits _ _ _ hg x hx
+
+theorem listenerInt_ok {t : Str} {i : Int} (h : listenerInt t = .ok i) : pyInt t = .ok i := by
+  unfold listenerInt at h
+  cases hp : pyInt t with
+  | error e => rw [hp] at h; cases h
+  | ok j => rw [hp] at h; exact h
+
+/-! ## what the recogniser returns -/
+
+theorem parseTuples_pos : ∀ (ts : List Tok) (tu : List (Str × Str)) (rest : List Tok),
+    (∀ t ∈ ts, GoodTok t) → parseTuples ts = some (tu, rest) → ∀ p ∈ tu, PosText p.1 ∧ PosText p.2 := by
+  intro ts
+  fun_induction parseTuples ts with
+  | case1 a b rest hab ih =>
+    intro tu rest' hg h
+    cases hr : parseTuples rest with
+    | none => simp [hr] at h
+    | some p =>
+      obtain ⟨r, ts'⟩ := p
+      simp only [hr, Option.map_some, Option.some.injEq, Prod.mk.injEq] at h
+      obtain ⟨rfl, rfl⟩ := h
+      simp only [Bool.and_eq_true] at hab
+      intro p hp
+      rcases List.mem_cons.1 hp with rfl | hp
+      · exact ⟨gtZero_pos (hg a (by simp)) hab.1, gtZero_pos (hg b (by simp)) hab.2⟩
+      · exact ih _ _ (fun t ht => hg t (by simp [ht])) hr p hp
+  | case2 => intro tu rest' _ h; cases h
+  | case3 => intro tu rest' _ h; cases h
+  | case4 ts h1 h2 =>
+    intro tu rest' _ h
+    simp only [Option.some.injEq, Prod.mk.injEq] at h
+    obtain ⟨rfl, _⟩ := h
+    intro p hp; cases hp
+
+theorem parseProps_pos : ∀ (ts : List Tok) (ps : List (Str × Str)) (rest : List Tok),
+    (∀ t ∈ ts, GoodTok t) → parseProps ts = some (ps, rest) → ∀ q ∈ ps, KeyText q.1 ∧ PosText q.2 := by
+  intro ts
+  fun_induction parseProps ts with
+  | case1 rest =>
+    intro ps rest' _ h
+    simp only [Option.some.injEq, Prod.mk.injEq] at h
+    obtain ⟨rfl, rfl⟩ := h
+    intro q hq; cases hq
+  | case2 k v rest hkv ih =>
+    intro ps rest' hg h
+    cases hr : parseProps rest with
+    | none => simp [hr] at h
+    | some p =>
+      obtain ⟨r, ts'⟩ := p
+      simp only [hr, Option.map_some, Option.some.injEq, Prod.mk.injEq] at h
+      obtain ⟨rfl, rfl⟩ := h
+      simp only [Bool.and_eq_true] at hkv
+      intro q hq
+      rcases List.mem_cons.1 hq with rfl | hq
+      · exact ⟨isKey_text hkv.1, gtZero_pos (hg v (by simp)) hkv.2⟩
+      · exact ih _ _ (fun t ht => hg t (by simp [ht])) hr q hq
+  | case3 => intro ps rest' _ h; cases h
+  | case4 => intro ps rest' _ h; cases h
+
+/-- index texts and value texts start with `1`..`9`, keys are `mass` / `rad` -/
+def GoodAttrs' (ats : List (Str × List (Str × Str))) : Prop :=
+  ∀ p ∈ ats, PosText p.1 ∧ ∀ q ∈ p.2, KeyText q.1 ∧ PosText q.2
+
+theorem parseAttrs_pos : ∀ (ts : List Tok) (ats : List (Str × List (Str × Str))) (rest : List Tok),
+    (∀ t ∈ ts, GoodTok t) → parseAttrs ts = some (ats, rest) → GoodAttrs' ats := by
+  intro ts
+  fun_induction parseAttrs ts with
+  | case1 i k v rest hc ps rest' hps hlen ih =>
+    intro ats rest'' hg h
+    cases hr : parseAttrs rest' with
+    | none => simp [hr] at h
+    | some p =>
+      obtain ⟨r, ts'⟩ := p
+      simp only [hr, Option.map_some, Option.some.injEq, Prod.mk.injEq] at h
+      obtain ⟨rfl, rfl⟩ := h
+      obtain ⟨_, h2⟩ := parseProps_spec _ _ _ hps
+      have h1 := parseProps_pos _ _ _ (fun t ht => hg t (by simp [ht])) hps
+      simp only [Bool.and_eq_true] at hc
+      have hg' : ∀ t ∈ rest', GoodTok t := fun t ht => hg t (by have := h2 ht; simp [this])
+      have := ih _ _ hg' hr
+      intro p hp
+      rcases List.mem_cons.1 hp with rfl | hp
+      · refine ⟨gtZero_pos (hg i (by simp)) hc.1.1, ?_⟩
+        intro q hq
+        rcases List.mem_cons.1 hq with rfl | hq
+        · exact ⟨isKey_text hc.1.2, gtZero_pos (hg v (by simp)) hc.2⟩
+        · exact h1 q hq
+      · exact this p hp
+  | case2 => intro ats rest'' hg h; cases h
+  | case3 => intro ats rest'' hg h; cases h
+  | case4 => intro ats rest'' hg h; cases h
+  | case5 => intro ats rest'' hg h; cases h
+  | case6 =>
+    intro ats rest'' hg h
+    simp only [Option.some.injEq, Prod.mk.injEq] at h
+    obtain ⟨rfl, rfl⟩ := h
+    intro p hp; cases hp
+
+theorem parseTucan_pos {ts : List Tok} {ast : Ast} (hg : ∀ t ∈ ts, GoodTok t)
+    (h : parseTucan ts = some ast) :
+    (∀ p ∈ ast.tuples, PosText p.1 ∧ PosText p.2) ∧ GoodAttrs' ast.attrs := by
+  unfold parseTucan at h
+  cases hf : parseFormula ts with
+  | none => simp [hf] at h
+  | some p =>
+    obtain ⟨f, ts1⟩ := p
+    obtain ⟨hf1, hf2⟩ := parseFormula_spec hf
+    simp only [hf, Option.bind_eq_bind, Option.bind_some] at h
+    split at h
+    · next ts2 =>
+      have hg2 : ∀ t ∈ ts2, GoodTok t := fun t ht => hg t (hf2 (List.mem_cons_of_mem _ ht))
+      cases ht : parseTuples ts2 with
+      | none => simp [ht] at h
+      | some p =>
+        obtain ⟨tu, ts3⟩ := p
+        have ht2 := parseTuples_subset _ _ _ ht
+        have htp := parseTuples_pos _ _ _ hg2 ht
+        simp only [ht, Option.bind_some] at h
+        split at h
+        · simp only [Option.some.injEq] at h
+          subst h
+          exact ⟨htp, fun p hp => by cases hp⟩
+        · next ts4 =>
+          cases ha : parseAttrs ts4 with
+          | none => simp [ha] at h
+          | some p =>
+            obtain ⟨ats, ts5⟩ := p
+            simp only [ha, Option.bind_some] at h
+            split at h
+            · simp only [Option.some.injEq] at h
+              subst h
+              refine ⟨htp, parseAttrs_pos _ _ _ ?_ ha⟩
+              intro t ht4
+              exact hg2 t (ht2 (List.mem_cons_of_mem _ ht4))
+            · cases h
+        · cases h
+    · cases h
+
+/-! ## the listeners -/
+
+theorem foldlM_ok_inv {α β} {P : β → Prop} {Q : α → Prop} (f : β → α → PyM β)
+    (hf : ∀ a, Q a → ∀ b b', P b → f b a = .ok b' → P b') :
+    ∀ (l : List α), (∀ a ∈ l, Q a) → ∀ b r, P b → l.foldlM f b = .ok r → P r := by
+  intro l
+  induction l with
+  | nil =>
+    intro _ b r hb h
+    cases h
+    exact hb
+  | cons a l ih =>
+    intro hl b r hb h
+    rw [List.foldlM_cons] at h
+    obtain ⟨b', h1, h2⟩ := bind_ok h
+    exact ih (fun x hx => hl x (List.mem_cons_of_mem _ hx)) b' r
+      (hf a (hl a List.mem_cons_self) b b' hb h1) h2
+
+/-- an atom as `listenFormula` creates it -/
+def FAtom (a : Atom) : Prop :=
+  ∃ (s : Str) (z : Nat), elementZ s = some z ∧ a = { sym := some s, z := some (z : Int), part := some 0 }
+
+theorem listenFormula_ok {f : List (Str × Option Str)} {atoms : List Atom}
+    (h : listenFormula f = .ok atoms) : ∀ a ∈ atoms, FAtom a := by
+  unfold listenFormula at h
+  refine foldlM_ok_inv (P := fun (atoms : List Atom) => ∀ a ∈ atoms, FAtom a) (Q := fun _ => True)
+    _ ?_ f (fun _ _ => trivial) [] atoms (by intro a ha; cases ha) h
+  rintro ⟨sym, cnt⟩ _ acc acc' hacc hs
+  simp only at hs
+  cases hez : elementZ sym with
+  | none =>
+    rw [hez] at hs
+    cases cnt with
+    | none => cases hs
+    | some c =>
+      obtain ⟨count, _, hs⟩ := bind_ok hs
+      cases hs
+  | some z' =>
+    rw [hez] at hs
+    have key : ∀ count : Int, acc' = acc ++ List.replicate count.toNat
+        ({ sym := some sym, z := some (z' : Int), part := some 0 } : Atom) → ∀ a ∈ acc', FAtom a := by
+      intro count he a ha
+      subst he
+      rcases List.mem_append.1 ha with ha | ha
+      · exact hacc a ha
+      · exact ⟨sym, z', hez, (List.mem_replicate.1 ha).2⟩
+    cases cnt with
+    | none => cases hs; exact key 1 rfl
+    | some c =>
+      obtain ⟨count, _, hs⟩ := bind_ok hs
+      cases hs
+      exact key count rfl
+
+theorem listenTuples_ok {tu : List (Str × Str)} (htu : ∀ p ∈ tu, PosText p.1 ∧ PosText p.2)
+    {bonds : List (Int × Int)} (h : listenTuples tu = .ok bonds) :
+    ∀ b ∈ bonds, 0 ≤ b.1 ∧ 0 ≤ b.2 ∧ b.1 ≠ b.2 := by
+  unfold listenTuples at h
+  refine foldlM_ok_inv (P := fun (bonds : List (Int × Int)) => ∀ b ∈ bonds, 0 ≤ b.1 ∧ 0 ≤ b.2 ∧ b.1 ≠ b.2)
+    (Q := fun (p : Str × Str) => PosText p.1 ∧ PosText p.2)
+    _ ?_ tu htu [] bonds (by intro a ha; cases ha) h
+  rintro ⟨a, b⟩ ⟨ha, hb⟩ acc acc' hacc hs
+  obtain ⟨i1, h1, hs⟩ := bind_ok hs
+  obtain ⟨i2, h2, hs⟩ := bind_ok hs
+  have p1 := (pyInt_posVal ha (listenerInt_ok h1)).1
+  have p2 := (pyInt_posVal hb (listenerInt_ok h2)).1
+  split at hs
+  · cases hs
+  · next hne =>
+    cases hs
+    simp only [beq_iff_eq] at hne
+    intro x hx
+    rcases List.mem_append.1 hx with hx | hx
+    · exact hacc x hx
+    · rw [List.mem_singleton.1 hx]
+      refine ⟨?_, ?_, ?_⟩ <;> simp only <;> omega
+
+/-- an attribute record as `listenAttrs` builds it -/
+def AttrRec (x : Atom) : Prop :=
+  OnlyMassRad x ∧ (∀ v, x.mass = some v → PosVal v) ∧ (∀ v, x.rad = some v → PosVal v)
+
+theorem attrRec_empty : AttrRec {} :=
+  ⟨⟨rfl, rfl, rfl, rfl, rfl, rfl, rfl, rfl, rfl, rfl⟩, fun _ h => (by cases h), fun _ h => (by cases h)⟩
+
+theorem setAttr_ok {key : String} (hk : key = "mass" ∨ key = "rad") {v : Int} (hv : PosVal v) {a a' : Atom}
+    (ha : AttrRec a) (h : setAttr key v a = .ok a') : AttrRec a' := by
+  unfold setAttr at h
+  obtain ⟨⟨a1, a2, a3, a4, a5, a6, a7, a8, a9, a10⟩, hm, hr⟩ := ha
+  rcases hk with rfl | rfl
+  · simp only [beq_self_eq_true, if_true] at h
+    split at h
+    · cases h
+    · cases h
+      refine ⟨⟨a1, a2, a3, a4, a5, a6, a7, a8, a9, a10⟩, ?_, hr⟩
+      intro w hw
+      cases hw
+      exact hv
+  · have : ("rad" == "mass") = false := by decide
+    simp only [this, Bool.false_eq_true, if_false, beq_self_eq_true, if_true] at h
+    split at h
+    · cases h
+    · cases h
+      refine ⟨⟨a1, a2, a3, a4, a5, a6, a7, a8, a9, a10⟩, hm, ?_⟩
+      intro w hw
+      cases hw
+      exact hv
+
+theorem nodup_ainsert {κ ν} [BEq κ] [LawfulBEq κ] (k : κ) (v : ν) : ∀ (l : List (κ × ν)),
+    (l.map (·.1)).Nodup → ((ainsert k v l).map (·.1)).Nodup
+  | [], _ => by simp [ainsert]
+  | (k', v') :: r, h => by
+    simp only [ainsert]
+    split
+    · next hk =>
+      have := eq_of_beq hk
+      subst this
+      exact h
+    · next hk =>
+      rw [List.map_cons, List.nodup_cons] at h ⊢
+      refine ⟨?_, nodup_ainsert k v r h.2⟩
+      intro hm
+      obtain ⟨p, hp, hpk⟩ := List.mem_map.1 hm
+      rcases mem_ainsert hp with rfl | hp
+      · simp only at hpk
+        subst hpk
+        simp at hk
+      · exact h.1 (List.mem_map.2 ⟨p, hp, hpk⟩)
+
+def AttrsOk (na : List (Int × Atom)) : Prop :=
+  (na.map (·.1)).Nodup ∧ ∀ p ∈ na, 0 ≤ p.1 ∧ AttrRec p.2
+
+theorem listenAttrs_ok {ats : List (Str × List (Str × Str))} (hats : GoodAttrs' ats)
+    {na : List (Int × Atom)} (h : listenAttrs ats = .ok na) : AttrsOk na := by
+  unfold listenAttrs at h
+  refine foldlM_ok_inv (P := AttrsOk)
+    (Q := fun (p : Str × List (Str × Str)) => PosText p.1 ∧ ∀ q ∈ p.2, KeyText q.1 ∧ PosText q.2)
+    _ ?_ ats hats [] na ⟨List.nodup_nil, by intro a ha; cases ha⟩ h
+  rintro ⟨idx, props⟩ ⟨hidx, hprops⟩ acc acc' hacc hs
+  refine foldlM_ok_inv (P := AttrsOk) (Q := fun (q : Str × Str) => KeyText q.1 ∧ PosText q.2)
+    _ ?_ props hprops acc acc' hacc hs
+  rintro ⟨k, v⟩ ⟨hk, hv⟩ acc acc' ⟨hnd, hacc⟩ hs
+  obtain ⟨i, hi, hs⟩ := bind_ok hs
+  obtain ⟨value, hval, hs⟩ := bind_ok hs
+  have hkey' : ∃ key, (key = "mass" ∨ key = "rad") ∧ attrKeyOf k = some key := by
+    rcases hk with hk | hk
+    · simp only at hk
+      subst hk
+      exact ⟨_, Or.inl rfl, attrKeyOf_keys.1⟩
+    · simp only at hk
+      subst hk
+      exact ⟨_, Or.inr rfl, attrKeyOf_keys.2⟩
+  obtain ⟨key, hkey', hak⟩ := hkey'
+  rw [hak] at hs
+  obtain ⟨key0, hk0, hs⟩ := bind_ok hs
+  cases hk0
+  obtain ⟨cur', hcur, hs⟩ := bind_ok hs
+  cases hs
+  have hi1 := (pyInt_posVal hidx (listenerInt_ok hi)).1
+  have hvp := pyInt_posVal hv (listenerInt_ok hval)
+  have hc : AttrRec ((alookup (i - 1) acc).getD {}) := by
+    cases hl : alookup (i - 1) acc with
+    | none => exact attrRec_empty
+    | some a => exact (hacc _ (alookup_mem hl)).2
+  refine ⟨nodup_ainsert _ _ _ hnd, ?_⟩
+  intro p hp
+  rcases mem_ainsert hp with rfl | hp
+  · exact ⟨by show 0 ≤ i - 1; omega, setAttr_ok hkey' hvp hc hcur⟩
+  · exact hacc p hp
+
+/-! ## the bound checks of `to_graph` -/
+
+theorem forIn_ok_all {α β} {Q : α → Prop} (f : α → β → PyM (ForInStep β))
+    (hf : ∀ a b s, f a b = .ok s → Q a ∧ ∃ b', s = .yield b') :
+    ∀ (l : List α) (b r : β), forIn l b f = .ok r → ∀ a ∈ l, Q a := by
+  intro l
+  induction l with
+  | nil => intro _ _ _ a ha; cases ha
+  | cons x l ih =>
+    intro b r h a ha
+    rw [List.forIn_cons] at h
+    obtain ⟨s, h1, h2⟩ := bind_ok h
+    obtain ⟨hq, b', rfl⟩ := hf x b s h1
+    rcases List.mem_cons.1 ha with rfl | ha
+    · exact hq
+    · exact ih b' r h2 a ha
+
+theorem toGraph_ok_bounds {st : ListenerState} {g : Graph} (h : toGraph st = .ok g) :
+    (∀ b ∈ st.bonds, b.1 < st.atoms.length ∧ b.2 < st.atoms.length) ∧
+    (∀ e ∈ st.nodeAttrs, e.1 < st.atoms.length) := by
+  unfold toGraph at h
+  obtain ⟨u, h1, h2⟩ := bind_ok h
+  obtain ⟨d, h3, h4⟩ := bind_ok h2
+  refine ⟨forIn_ok_all _ ?_ _ _ _ h1, forIn_ok_all _ ?_ _ _ _ h3⟩
+  · rintro ⟨i1, i2⟩ b s hs
+    simp only at hs ⊢
+    split at hs
+    · cases hs
+    · next c1 =>
+      split at hs
+      · cases hs
+      · next c2 =>
+        cases hs
+        exact ⟨⟨by omega, by omega⟩, _, rfl⟩
+  · rintro ⟨idx, extra⟩ b s hs
+    simp only at hs ⊢
+    split at hs
+    · cases hs
+    · next c1 =>
+      split at hs
+      · cases hs
+      · cases hs
+        exact ⟨by omega, _, rfl⟩
+
+
+/-! ## assembly -/
+
+theorem table_symOfZ :
+    Tables.elementTable.all (fun e => symOfZ (e.2 : Int) == some e.1.toList) = true := by
+  decide +kernel
+
+theorem symOfZ_of_elementZ {s : Str} {z : Nat} (h : elementZ s = some z) : symOfZ (z : Int) = some s := by
+  unfold elementZ at h
+  have hm := alookup_mem h
+  have := List.all_eq_true.1 table_symOfZ _ hm
+  simp only [beq_iff_eq] at this
+  rw [this, String.toList_ofList]
+
+/-- the listener state of an accepted string, with everything the listeners guarantee -/
+theorem state_strong (s : Str) (g : Graph) (h : graphFromTucan s = .ok g) :
+    ∃ toks ast st, lex s = some toks ∧ parseTucan toks = some ast ∧
+      listenFormula ast.formula = .ok st.atoms ∧ listenTuples ast.tuples = .ok st.bonds ∧
+      listenAttrs ast.attrs = .ok st.nodeAttrs ∧ toGraph st = .ok g ∧ GoodState st ∧
+      (∀ a ∈ st.atoms, FAtom a) ∧ (∀ e ∈ st.nodeAttrs, AttrRec e.2) := by
+  unfold graphFromTucan at h
+  cases hl : lex s with
+  | none => rw [hl] at h; cases h
+  | some toks =>
+    rw [hl] at h
+    simp only [pure_bind] at h
+    cases hp : parseTucan toks with
+    | none => rw [hp] at h; cases h
+    | some ast =>
+      rw [hp] at h
+      obtain ⟨atoms, ha, h⟩ := bind_ok h
+      obtain ⟨bonds, hb, h⟩ := bind_ok h
+      obtain ⟨na, hn, h⟩ := bind_ok h
+      obtain ⟨htu, hats⟩ := parseTucan_pos (lex_good hl) hp
+      have fa := listenFormula_ok ha
+      have fb := listenTuples_ok htu hb
+      obtain ⟨fnd, fn⟩ := listenAttrs_ok hats hn
+      obtain ⟨gb, gn⟩ := toGraph_ok_bounds h
+      refine ⟨toks, ast, ⟨atoms, bonds, na⟩, rfl, hp, ha, hb, hn, h, ⟨?_, ?_, ?_, fnd⟩, fa,
+        fun e he => (fn e he).2⟩
+      · intro a hm
+        obtain ⟨s', z, _, rfl⟩ := fa a hm
+        rfl
+      · intro b hm
+        obtain ⟨b1, b2, b3⟩ := fb b hm
+        obtain ⟨b4, b5⟩ := gb b hm
+        exact ⟨b1, b4, b2, b5, b3⟩
+      · intro e hm
+        exact ⟨(fn e hm).1, gn e hm, (fn e hm).2.1⟩
+
+theorem molAtom_out {a e x : Atom} (ha : FAtom a) (he : AttrRec e)
+    (hx : addInvariantCode (a.update e) = .ok x) : MolAtom x ∧ x.part = some 0 := by
+  obtain ⟨s, z, hez, rfl⟩ := ha
+  obtain ⟨⟨e1, e2, e3, e4, e5, e6, e7, e8, e9, e10⟩, hm, hr⟩ := he
+  cases e
+  simp only at e1 e2 e3 e4 e5 e6 e7 e8 e9 e10 hm hr
+  subst e1 e2 e3 e4 e5 e6 e7 e8 e9 e10
+  unfold addInvariantCode Atom.update at hx
+  simp only [Option.orElse_eq_orElse, Option.orElse_eq_or, Option.or_some, Option.getD_none,
+    Option.or_none, Option.or_self, Except.ok.injEq] at hx
+  subst hx
+  refine ⟨⟨⟨z, rfl, (symOfZ_of_elementZ hez).symm, rfl, ?_, ?_⟩, ⟨s, rfl⟩, ?_, ?_⟩, rfl⟩
+  · intro h0
+    exact absurd (hm 0 h0).1 (by decide)
+  · intro h0
+    exact absurd (hr 0 h0).1 (by decide)
+  · intro v hv
+    exact ⟨Int.lt_of_lt_of_le (by decide) (hm v hv).1, (hm v hv).2⟩
+  · intro v hv
+    exact ⟨Int.lt_of_lt_of_le (by decide) (hr v hv).1, (hr v hv).2⟩
+
+end Tucan.POut
+
 namespace Tucan
 
 /-- the listener state of an accepted string -/
@@ -15,12 +540,40 @@ theorem graphFromTucan_state (s : Str) (g : Graph) (h : graphFromTucan s = .ok g
     ∃ toks ast st, lex s = some toks ∧ parseTucan toks = some ast ∧
       listenFormula ast.formula = .ok st.atoms ∧ listenTuples ast.tuples = .ok st.bonds ∧
       listenAttrs ast.attrs = .ok st.nodeAttrs ∧ toGraph st = .ok g ∧ GoodState st := by
-  sorry
+  obtain ⟨toks, ast, st, h1, h2, h3, h4, h5, h6, h7, _⟩ := POut.state_strong s g h
+  exact ⟨toks, ast, st, h1, h2, h3, h4, h5, h6, h7⟩
 
 /-- **The parser's output is a molecule graph.** -/
 theorem graphFromTucan_mol (s : Str) (g : Graph) (h : graphFromTucan s = .ok g) :
     g.WF ∧ g.Simple ∧ g.MolAtoms ∧ (∃ n, g.labels = List.range n) ∧
     (∀ a ∈ g.labels, ∃ x, g.attrs? a = some x ∧ x.part = some 0) := by
-  sorry
+  obtain ⟨toks, ast, st, _, _, _, _, _, hg, hgood, hfa, hna⟩ := POut.state_strong s g h
+  obtain ⟨g', e0, hl, hw, hs, hat, _⟩ := toGraph_spec st hgood
+  rw [hg] at e0
+  cases e0
+  have hnode : ∀ i, i < st.atoms.length → ∃ x, g.attrs? i = some x ∧ MolAtom x ∧ x.part = some 0 := by
+    intro i hi
+    obtain ⟨x, hx1, hx2⟩ := hat i hi
+    have hi' : i < (sortAtomsByZ st.atoms).length := by rw [PDen.sorted_length]; exact hi
+    have hfa' : POut.FAtom ((sortAtomsByZ st.atoms)[i]?.getD {}) := by
+      rw [List.getElem?_eq_getElem hi', Option.getD_some]
+      exact hfa _ (List.mem_mergeSort.1 (List.getElem_mem hi'))
+    have hrec : POut.AttrRec (extraOf st i) := by
+      unfold extraOf
+      cases hlk : alookup (i : Int) st.nodeAttrs with
+      | none => exact POut.attrRec_empty
+      | some e => exact hna _ (RejectKind.alookup_mem hlk)
+    exact ⟨x, hx2, POut.molAtom_out hfa' hrec hx1⟩
+  refine ⟨hw, hs, ?_, ⟨_, hl⟩, ?_⟩
+  · intro a ha x hx
+    rw [hl] at ha
+    obtain ⟨y, hy, hm, _⟩ := hnode a (List.mem_range.1 ha)
+    rw [hy] at hx
+    cases hx
+    exact hm
+  · intro a ha
+    rw [hl] at ha
+    obtain ⟨y, hy, _, hp⟩ := hnode a (List.mem_range.1 ha)
+    exact ⟨y, hy, hp⟩
 
 end Tucan
